@@ -282,10 +282,15 @@ func RunParent(ch *Check, tier, bin string, extraEnv []string) int {
 	results := make([]Result, n)
 	fails := make([]string, n)
 	var wg sync.WaitGroup
+	// at most 16 workers at a time: a check may ask for more shards than
+	// that so that each worker process is short-lived (bounded memory)
+	sem := make(chan struct{}, 16)
 	for i := 0; i < n; i++ {
 		wg.Add(1)
 		go func(i int) {
 			defer wg.Done()
+			sem <- struct{}{}
+			defer func() { <-sem }()
 			out := filepath.Join(tmp, fmt.Sprintf("shard%d.json", i))
 			cmd := exec.Command(bin, ch.ID, "--tier", tier, "--shard", strconv.Itoa(i), "--nshards", strconv.Itoa(n), "--out", out)
 			cmd.Env = append(os.Environ(), extraEnv...)
